@@ -5,6 +5,7 @@ import (
 	"errors"
 	"fmt"
 	"io"
+	"math/big"
 	"net/url"
 	"sort"
 	"strings"
@@ -394,35 +395,35 @@ func (g *generator) walkNumber(schema *schemaparser.Schema) (ast.Type, error) {
 	}
 
 	if schema.Minimum != nil {
-		value, _ := schema.Minimum.Float64()
+		value := numberBound(scalarKind, schema.Minimum)
 		def.Scalar.Constraints = append(def.Scalar.Constraints, ast.TypeConstraint{
 			Op:   ast.GreaterThanEqualOp,
 			Args: []any{value},
 		})
 	}
 	if schema.ExclusiveMinimum != nil {
-		value, _ := schema.ExclusiveMinimum.Float64()
+		value := numberBound(scalarKind, schema.ExclusiveMinimum)
 		def.Scalar.Constraints = append(def.Scalar.Constraints, ast.TypeConstraint{
 			Op:   ast.GreaterThanOp,
 			Args: []any{value},
 		})
 	}
 	if schema.Maximum != nil {
-		value, _ := schema.Maximum.Float64()
+		value := numberBound(scalarKind, schema.Maximum)
 		def.Scalar.Constraints = append(def.Scalar.Constraints, ast.TypeConstraint{
 			Op:   ast.LessThanEqualOp,
 			Args: []any{value},
 		})
 	}
 	if schema.ExclusiveMaximum != nil {
-		value, _ := schema.ExclusiveMaximum.Float64()
+		value := numberBound(scalarKind, schema.ExclusiveMaximum)
 		def.Scalar.Constraints = append(def.Scalar.Constraints, ast.TypeConstraint{
 			Op:   ast.LessThanOp,
 			Args: []any{value},
 		})
 	}
 	if schema.MultipleOf != nil {
-		value, _ := schema.MultipleOf.Float64()
+		value := numberBound(scalarKind, schema.MultipleOf)
 		def.Scalar.Constraints = append(def.Scalar.Constraints, ast.TypeConstraint{
 			Op:   ast.MultipleOfOp,
 			Args: []any{value},
@@ -430,6 +431,19 @@ func (g *generator) walkNumber(schema *schemaparser.Schema) (ast.Type, error) {
 	}
 
 	return def, nil
+}
+
+// numberBound gives the argument of a numeric constraint. The bounds of an
+// integer are integers: read through a float64, those that are beyond 2^53
+// would be rounded.
+func numberBound(scalarKind ast.ScalarKind, bound *big.Rat) any {
+	if scalarKind != ast.KindFloat64 && bound.IsInt() && bound.Num().IsInt64() {
+		return bound.Num().Int64()
+	}
+
+	value, _ := bound.Float64()
+
+	return value
 }
 
 func (g *generator) walkList(schema *schemaparser.Schema) (ast.Type, error) {
